@@ -50,7 +50,9 @@ def _class(ev, r, pre):
             return "duplicate-run-started"
         return "first-run-started"
     if r in pre["misclosed"]:
-        return "after-foreign-run-stopped"
+        # the run was stored early by a run_stopped of another run id; only a run_started delivered again for it afterwards
+        # makes it a run again that will be stored a second time (known); without that a second row is something else
+        return "after-foreign-run-stopped" if r in pre.get("misclosed_restarted", ()) else "after-foreign-run-stopped:without-new-run-started"
     if r in pre["reopened"] or (er is not None and er in pre["reopened"]):
         return "after-late-run-started"
     if ev.startswith("stop") and er == r:
